@@ -54,6 +54,29 @@ class Mgr:
         return not bad
 
 
+def handle_tt(s, A, h, n):
+    """Truth table of the autoref handle `h`, read ONLY through the handle's own
+    attributes (var / low / high / negated), as a client traversal would; the
+    root handle is the live Python object, the children are fresh handles that
+    are dropped again."""
+    def go(x, top):
+        v = s.op(A, 'varof', x)
+        neg = s.op(A, 'negated', x)
+        if v is None:
+            r = T.full(n)
+        else:
+            lo = s.op(A, 'low', x)
+            hi = s.op(A, 'high', x)
+            tlo = go(lo, False)
+            thi = go(hi, False)
+            s.op(A, 'drop', lo)
+            s.op(A, 'drop', hi)
+            # low/high are the cofactors of the REGULAR node
+            r = T.ite(T.var(v, n), thi, tlo, n)
+        return T.neg(r, n) if neg else r
+    return go(h, True)
+
+
 def replay(payload):
     """Print a replay file; if it carries case lines, run them on the
     implementation and on the model and show both outputs."""
